@@ -91,6 +91,17 @@ Definition ip4_is_valid (p : slice) : res bool :=
 Definition ip4_payload (p : slice) : res slice :=
   (ihl <- ip4_ihl p ;; tl <- ip4_totallen p ;; sl p ihl tl)%res.
 
+(* UDP.IsValid (len >= 8) and TCP.IsValid (as repaired by 3443f46:
+   len >= 20 && 4*(p[12]>>4) >= 20 && len >= that) *)
+Definition udp_is_valid (p : slice) : res bool := Ok (negb (Nat.ltb (len p) 8)).
+Definition tcp_is_valid (p : slice) : res bool :=
+  if Nat.ltb (len p) 20 then Ok false
+  else (off <- idx p 12 ;;
+        let hl := (N.to_nat (N.shiftr off 4) * 4)%nat in
+        if Nat.ltb hl 20 then Ok false
+        else off' <- idx p 12 ;;
+             Ok (negb (Nat.ltb (len p) (N.to_nat (N.shiftr off' 4) * 4))))%res.
+
 (* ICMPEcho.FastLog: checksum, id, seq, EchoData = p[8:] *)
 Definition echo_fastlog (p : slice) : res unit :=
   (_ <- be16_at p 2 ;; _ <- be16_at p 4 ;; _ <- be16_at p 6 ;; _ <- slfrom p 8 ;; Ok tt)%res.
@@ -111,15 +122,12 @@ Definition icmp4_process (info : bool) (p : slice) : res unit :=
             proto <- idx ip 9 ;;
             _ <- (if proto =? 17 then
                     (udp <- ip4_payload ip ;;
-                     if Nat.ltb (len udp) 8 then Err EFrameLen else _ <- be16_at udp 2 ;; Ok tt)
+                     v <- udp_is_valid udp ;;
+                     if negb v then Err EFrameLen else _ <- be16_at udp 2 ;; Ok tt)
                   else if proto =? 6 then
                     (tcp <- ip4_payload ip ;;
-                     (* TCP.IsValid (as repaired by 3443f46): len >= 20 && 4*(p[12]>>4) >= 20 && len >= that *)
-                     if Nat.ltb (len tcp) 20 then Err EParseFrame
-                     else off <- idx tcp 12 ;;
-                          let hl := (N.to_nat (N.shiftr off 4) * 4)%nat in
-                          if Nat.ltb hl 20 || Nat.ltb (len tcp) hl then Err EParseFrame
-                          else _ <- be16_at tcp 2 ;; Ok tt)
+                     v <- tcp_is_valid tcp ;;
+                     if negb v then Err EParseFrame else _ <- be16_at tcp 2 ;; Ok tt)
                   else Ok tt) ;;
             when info (_ <- idx p 1 ;; _ <- sl ip 16 20 ;; Ok tt))  (* code, originalIP4Frame.Dst() *)
      else Ok tt)%res.
